@@ -120,9 +120,21 @@ def o_set(a):
     E = numpy.array(aeff.x)
     E = E[(E >= 1.02) & (E <= 11.98)]
     a_, m_, f_ = aeff(E), mrf(E), modf(E)
-    rel = float(numpy.abs(m_ - a_ * f_).max() / numpy.abs(m_).max())
+    rel = float((numpy.abs(m_ - a_ * f_) / numpy.abs(m_)).max())             # pointwise: the gray-filter responses span ten decades
     if rel > 5e-6:
-        bad.append('mrf differs from arf × modf by %.3g of its maximum' % rel)
+        j = int((numpy.abs(m_ - a_ * f_) / numpy.abs(m_)).argmax())
+        bad.append('mrf differs from arf × modf by a factor %.6g at %.2f keV (mrf %.4g, arf × modf %.4g)' % (m_[j] / (a_[j] * f_[j]), E[j], m_[j], a_[j] * f_[j]))
+    # the loaded objects are the tables of the files they name
+    from astropy.io import fits as _fits
+    for obj, t in ((aeff, 'arf'), (mrf, 'mrf')):
+        with _fits.open(obj.file_path) as h:
+            dd = h['SPECRESP'].data
+            Ec, tab = 0.5 * (numpy.array(dd['ENERG_LO'], dtype=float) + numpy.array(dd['ENERG_HI'], dtype=float)), numpy.array(dd['SPECRESP'], dtype=float)
+        k = (Ec >= 1.02) & (Ec <= 11.98) & (tab != 0)
+        r2 = numpy.abs(obj(Ec[k]) - tab[k]) / numpy.abs(tab[k])
+        if r2.max() > 1e-4:            # an interpolating spline through the table (a few 1e-6 where the table has a kink)
+            j = int(r2.argmax())
+            bad.append('%s evaluated at the tabulated energy %.2f keV gives %.6g, the SPECRESP column of %s has %.6g' % (t, Ec[k][j], obj(Ec[k])[j], os.path.basename(obj.file_path), tab[k][j]))
     if (a_ <= 0).any():
         bad.append('effective area not positive')
     if (f_ < -1e-9).any() or (f_ > 1 + 1e-9).any():
@@ -170,9 +182,9 @@ def o_irfset(a):
             bad.append('irf_set.%s is %s for DU %d' % (attr, fn, a['du']))
     E = numpy.array(s.aeff.x)                       # the relation holds at the tabulated energies (between them three different splines interpolate)
     E = E[(E >= 1.02) & (E <= 11.98)]
-    rel = float(numpy.abs(s.mrf(E) - s.aeff(E) * s.modf(E)).max() / numpy.abs(s.mrf(E)).max())
+    rel = float((numpy.abs(s.mrf(E) - s.aeff(E) * s.modf(E)) / numpy.abs(s.mrf(E))).max())
     if rel > 5e-6:
-        bad.append('within the set mrf differs from aeff × modf by %.3g of its maximum' % rel)
+        bad.append('within the set mrf differs from aeff × modf by a relative %.3g at some tabulated energy' % rel)
     return not bad, dict(violated=bad)
 
 
@@ -230,5 +242,6 @@ def replay(body):
         ok, obs = ORACLES[r['oracle']](r['args'])
         out('oracle %s on the recorded input: %s %s' % (r['oracle'], 'holds' if ok else 'FAILS', obs))
         return 0 if ok else 1
-    out(body['what'])
-    return 1
+    import sys
+    import common
+    return common.replay_rerun(sys.modules[__name__], body)
